@@ -27,7 +27,6 @@ use krill::constants::{CASERVER_NS, CA_OBJECTS_NS, TASK_QUEUE_NS};
 use krill::server::ca::publishing::CaObjects;
 use serde_json::{json, Value};
 
-const CAS: [&str; 3] = ["a", "b", "c"];
 fn parent_of(ca: &str) -> &'static str { if ca == "a" { "ta" } else { "a" } }
 const SELF_DIR: &str = "/proc/self/cwd";
 
@@ -132,7 +131,8 @@ struct Params { target: &'static str, roa: String, roa0: String, aspa: String, e
 
 fn params(seed: u64) -> Params {
     let mut rng = Rng::new(seed ^ 0xC08);
-    let target = if rng.chance(50) { "b" } else { "c" };
+    let _ = rng.chance(50);
+    let target = if seed % 2 == 1 { "b" } else { "c" };
     let (atoms, full): (Vec<u32>, u32) = if target == "b" { (vec![0, 1, 2, 3], 0x0f) } else { (vec![4, 5, 6], 0x70) };
     let atom = *rng.pick(&atoms[..atoms.len() - 1]);
     let third = rng.below(4) * 64;
@@ -176,12 +176,22 @@ fn prep(state: &str, seed: u64) {
     match state {
         "base" => {}
         "dirty" => { sys.routes_update(t, &[&p.roa], &[]).expect("dirty roa"); }
-        "staged" => { sys.routes_update(t, &[&p.roa], &[]).expect("roa"); sys.sync_repo(t).expect("sync repo"); }
+        "staged" => { sys.routes_update(t, &[&p.roa], &[]).expect("roa"); let r = sys.run_one_task(); assert!(r.map(|x| x.1.contains("synchronize repo")).unwrap_or(false), "the sync-repo task was expected"); }
         "ent" => { sys.update_child_resources("a", t, atoms_to_resources(p.ent_mask)).expect("entitlement"); }
         "rollpending" => { sys.keyroll_init(t).expect("roll init"); }
         "rollnew" => { sys.keyroll_init(t).expect("roll init"); sys.sync_parent(t, "a").expect("sync 1"); sys.sync_parent(t, "a").expect("sync 2"); let _ = sys.pump(200, 3000); }
         "rollold" => { sys.keyroll_init(t).expect("roll init"); sys.sync_parent(t, "a").expect("sync 1"); sys.sync_parent(t, "a").expect("sync 2"); let _ = sys.pump(200, 3000);
                        sys.keyroll_activate(t).expect("activate"); }
+        "ahead" => {
+            // a ROA update whose command store fails: the SyncRepo task for the next version stays queued (F08a)
+            let probe = install_probe(Mode::Fail, 2);
+            probe.on.store(true, Ordering::SeqCst);
+            let r = sys.routes_update(t, &[&p.roa], &[]);
+            probe.on.store(false, Ordering::SeqCst);
+            set_probe(None);
+            if r.is_ok() { eprintln!("prep ahead: the failing command store did not fail the command"); }
+            let _ = std::fs::remove_file("trace.log");
+        }
         other => panic!("unknown state {other}"),
     }
     let pre = facts(&sys);
@@ -274,7 +284,41 @@ fn facts(sys: &Sys) -> Value {
         versions.insert(h.to_string(), n as u64);
         objs.insert(h.to_string(), object_names(sys, h).unwrap_or_default());
     }
-    json!({"versions": versions, "objects": objs, "tasks": task_names(sys)})
+    let repo = PathBuf::from(SELF_DIR).join("repo");
+    let notif_serial = std::fs::read(repo.join("rrdp/notification.xml")).ok()
+        .and_then(|b| rpki::rrdp::NotificationFile::parse(b.as_slice()).ok()).map(|n| n.serial()).unwrap_or(0);
+    let content_serial = sys.krill.repo_manager().repo_stats().ok().map(|s| serde_json::to_value(&s).unwrap()["serial"].as_u64().unwrap_or(0)).unwrap_or(0);
+    json!({"versions": versions, "objects": objs, "tasks": task_names(sys),
+           "has_current": repo.join("rsync/current").exists(), "rsync_files": count_files(&repo.join("rsync/current")),
+           "notification_serial": notif_serial, "content_serial": content_serial})
+}
+
+fn count_files(dir: &Path) -> usize {
+    std::fs::read_dir(dir).map(|rd| rd.flatten().map(|e| { let p = e.path(); if p.is_dir() { count_files(&p) } else { 1 } }).sum()).unwrap_or(0)
+}
+
+/// The events (constructor name, child if any) of the commands each CA stored since `pre` - read from the
+/// audit log, not from the trace. A command stored with its error is "error".
+fn new_commands(sys: &Sys, pre: &Value) -> Value {
+    let mut out = BTreeMap::new();
+    let store = sys.krill.storage().open(CASERVER_NS).unwrap();
+    for h in ["a", "b", "c"] {
+        let scope = Ident::boxed_from_string(h.to_string()).unwrap();
+        let now = store.keys(Some(&scope), "command-").map(|k| k.len()).unwrap_or(0) as u64;
+        let mut cmds = Vec::new();
+        for v in pre["versions"][h].as_u64().unwrap_or(now)..now {
+            let c = kv_json(sys, CASERVER_NS, Some(h), &format!("command-{v}.json")).ok().flatten().unwrap_or(Value::Null);
+            match c["effect"]["events"].as_array() {
+                Some(evs) if !evs.is_empty() => cmds.push(json!(evs.iter().map(|e| {
+                    let camel: String = e["type"].as_str().unwrap_or("?").split('_').map(|w| { let mut c = w.chars(); c.next().map(|f| f.to_uppercase().collect::<String>() + c.as_str()).unwrap_or_default() }).collect();
+                    json!([camel, e["child"].as_str().unwrap_or("")])
+                }).collect::<Vec<_>>())),
+                _ => cmds.push(json!("error")),
+            }
+        }
+        out.insert(h.to_string(), cmds);
+    }
+    json!(out)
 }
 
 fn task_names(sys: &Sys) -> Vec<String> {
@@ -505,7 +549,21 @@ fn observe(sys: &Sys) -> Value {
         }
     }
     let (files, files_bad) = repo_files(sys);
-    json!({"cas": cas, "objects": objects, "repo": repo, "files": files, "files_bad": files_bad, "signed_bad": signed_bad, "versions": versions, "tasks": task_names(sys)})
+    // ROAs the publication server holds for a CA whose route is not in that CA's configuration (API view):
+    // what a relying party would turn into VRPs although no logged command ever asked for them
+    let mut orphans = Vec::new();
+    for h in ["a", "b", "c"] {
+        let routes: BTreeSet<String> = cas.get(h).and_then(|c| c["routes"].as_array().map(|a| a.iter().map(|x| x.as_str().unwrap_or("").to_string()).collect())).unwrap_or_default();
+        if let Some(list) = repo.get(h).and_then(|r| r.as_array()) {
+            for u in list {
+                let name = u.as_str().unwrap_or("").rsplit('/').next().unwrap_or("");
+                if let Some(hexname) = name.strip_suffix(".roa") {
+                    if let Ok(bytes) = hex::decode(hexname) { let route = String::from_utf8_lossy(&bytes).to_string(); if !routes.contains(&route) { orphans.push(format!("{h}: {route}")); } }
+                }
+            }
+        }
+    }
+    json!({"cas": cas, "objects": objects, "repo": repo, "files": files, "files_bad": files_bad, "signed_bad": signed_bad, "versions": versions, "tasks": task_names(sys), "orphan_roas": orphans})
 }
 
 /// The part of an observation that must equal the twin's.
@@ -575,7 +633,7 @@ fn recover_and_observe(sys: &Sys, op: &str, p: &Params, restarted: bool, first_r
     let obs = observe(sys);
     tm("observe");
     json!({"loads_bad": loads_bad, "loads_bad_final": loads_bad2, "at_cut": at_cut,
-           "obs_pump": {"cmp": comparable(&obs_pump), "signed_bad": obs_pump["signed_bad"], "files_bad": obs_pump["files_bad"]},
+           "obs_pump": {"cmp": comparable(&obs_pump), "signed_bad": obs_pump["signed_bad"], "files_bad": obs_pump["files_bad"], "orphan_roas": obs_pump["orphan_roas"]},
            "obs_prompt": comparable(&obs_prompt),
            "first_result": first_result.as_ref().map(res_json), "resubmit": res_json(&resubmit), "settle_errs": settle_errs,
            "pumped": [pumped1, pumped2, pumped3], "obs": obs})
@@ -612,9 +670,11 @@ fn worker(args: &Args) {
             probe.on.store(false, Ordering::SeqCst);
             set_probe(None);
             let n = probe.count.load(Ordering::SeqCst);
+            let pre = read_json(Path::new("pre.json"));
+            let newc = new_commands(&sys, &pre);
             if restart {
                 // the twin of the crash runs: end this runtime, a `recover` worker goes on
-                out(json!({"mutations": n, "first_result": match &r { Ok(()) => json!("ok"), Err(e) => json!({"err": e}) }}));
+                out(json!({"mutations": n, "new_commands": newc, "first_result": match &r { Ok(()) => json!("ok"), Err(e) => json!({"err": e}) }}));
                 drop(sys);
             } else if matches!(&r, Err(e) if e.starts_with("fatal")) {
                 // the scheduler ends the daemon on this path (process::exit): go on as after a restart
@@ -625,7 +685,7 @@ fn worker(args: &Args) {
                 out(v);
             } else {
                 let mut v = recover_and_observe(&sys, &op, &p, false, Some(r));
-                v["mutations"] = json!(n);
+                v["mutations"] = json!(n); v["new_commands"] = newc;
                 out(v);
             }
         }
@@ -663,7 +723,7 @@ fn read_trace(p: &Path) -> Vec<Value> {
 }
 
 #[derive(Clone)]
-struct CaseOut { state: String, op: String, mode: String, n: usize, trace: Vec<Value>, prefix: Vec<Value>, res: Value, exit: String }
+struct CaseOut { state: String, op: String, mode: String, n: usize, trace: Vec<Value>, prefix: Vec<Value>, res: Value, exit: String, target: String }
 
 fn run_case(exe: &Path, seed: u64, out: &Path, state: &str, op: &str, mode: &str, n: Option<usize>) -> CaseOut {
     let tag = match n { Some(n) => format!("{state}-{op}-{mode}-{n}"), None => format!("{state}-{op}-{mode}-twin") };
@@ -681,7 +741,7 @@ fn run_case(exe: &Path, seed: u64, out: &Path, state: &str, op: &str, mode: &str
         // the cut run must have died (rc None = killed by the abort signal); the twin ends normally
         let (rc2, err2) = run_worker(exe, seed, &d, &[("worker", "recover".into()), ("op", op.to_string())]);
         res = read_json(&d.join("result.json"));
-        if n.is_none() { res["mutations"] = first["mutations"].clone(); res["first_result"] = first["first_result"].clone(); }
+        if n.is_none() { res["mutations"] = first["mutations"].clone(); res["first_result"] = first["first_result"].clone(); res["new_commands"] = first["new_commands"].clone(); }
         exit = format!("{rc:?}/{rc2:?}");
         if rc2 != Some(0) { res = json!({"fatal": format!("recover worker ended with {rc2:?}: {err2}")}); }
     } else if rc != Some(0) {
@@ -689,7 +749,7 @@ fn run_case(exe: &Path, seed: u64, out: &Path, state: &str, op: &str, mode: &str
     }
     let keep = std::env::var("KV_KEEP").is_ok();
     if !keep { let _ = std::fs::remove_dir_all(&d); }
-    CaseOut { state: state.into(), op: op.into(), mode: mode.into(), n: n.unwrap_or(usize::MAX), prefix: trace.clone(), trace, res, exit }
+    CaseOut { state: state.into(), op: op.into(), mode: mode.into(), n: n.unwrap_or(usize::MAX), prefix: trace.clone(), trace, res, exit, target: String::new() }
 }
 
 fn shapes(tr: &[Value], op: &str) -> Vec<(String, String)> {
@@ -712,6 +772,7 @@ fn cut_class(tr: &[(String, String)], n: usize) -> String {
     if n > 0 && tr[n - 1].0 == "tasks" && tr[n - 1].1.starts_with("delete:pending") && tr[n].0 == "tasks" && tr[n].1.starts_with("store:pending") { return "queue-delete-before-store".into() }
     if tr[n].0 == "repo" {
         if tr[n].1 == "fs-rename:rsync-tmp" && n > 0 && tr[n - 1].1 == "fs-rename:rsync-current" { return "rsync-between-renames".into() }
+        if tr[n].1 == "fs-remove-dir:rsync-old" { return "rsync-after-switch-before-remove-old".into() }
         if tr[n].1.contains("rsync") { return "rsync-write".into() }
         return "rrdp-write".into();
     }
@@ -731,24 +792,160 @@ fn diff_paths(a: &Value, b: &Value, path: String, out: &mut Vec<String>) {
     }
 }
 
+// ------------------------------------------------------------------------------------------------
+// Coq terms
+
+fn ent_id(h: &str) -> u64 { match h { "ta" => 0, "a" => 1, "b" => 2, "c" => 3, _ => 98 } }
+
+fn task_term(name: &str) -> String {
+    if let Some(ca) = name.strip_prefix("sync_repo_") { return format!("(1, {})", ent_id(ca)) }
+    if let Some(rest) = name.strip_prefix("sync_") { if let Some((ca, _)) = rest.split_once("_with_parent_") { return format!("(2, {})", ent_id(ca)) } }
+    if name == "update_rrdp_if_needed" { return "(3, 0)".into() }
+    let id = match name { "all_cas_renew_objects_if_needed" => 1, "all_cas_republish_if_needed" => 2, "renew_testbed_ta" => 3, "update_stored_snapshots" => 4, "queue_start_tasks" => 5, "sync_ta_proxy_signer" => 6, _ => 7 };
+    format!("(9, {id})")
+}
+
+fn task_name_of_key(key: &str) -> String { key.split_once('-').map(|(_, n)| n.to_string()).unwrap_or(key.to_string()) }
+
+/// The shape term of one probe record.
+fn shape_term(t: &Value, wildcard_entity: bool) -> String {
+    let kind = t["kind"].as_str().unwrap_or("");
+    let ent = |h: &str| if wildcard_entity { 99 } else { ent_id(h) };
+    if kind.starts_with("fs-") {
+        let op = match kind { "fs-create-dir" => "FCreateDir", "fs-remove-dir" => "FRemoveDir", "fs-create-file" => "FCreateFile", "fs-write" => "FWrite", "fs-remove-file" => "FRemoveFile", _ => "FRename" };
+        let cls = match t["class"].as_str().unwrap_or("").rsplit(':').next().unwrap_or("") {
+            "delta" => "CDelta", "snapshot" => "CSnapshot", "notification-new" => "CNotifNew", "notification" => "CNotif", "rsync-tmp" => "CRsyncTmp",
+            "rsync-file" => "CRsyncFile", "rsync-current" => "CRsyncCurrent", "rsync-old" => "CRsyncOld", _ => "CRrdpOther" };
+        return format!("ShFs {op} {cls}");
+    }
+    let ns = t["store"].as_str().unwrap_or("");
+    let key = t["key"].as_str().unwrap_or("");
+    let scope = t["scope"].as_str().unwrap_or("");
+    match ns {
+        "ca_objects" => format!("ShObjects {}", ent(key.trim_end_matches(".json"))),
+        "cas" => if key.starts_with("command-") { format!("ShCommand {}", ent(scope)) } else { format!("ShSnapshot {}", ent(scope)) },
+        "status" => format!("ShStatus {}", ent(scope)),
+        "keys" => "ShKey".into(),
+        "signers" => "ShSigner".into(),
+        "pubd_objects" => if kind == "delete" { "ShWalDelete".into() } else if key.starts_with("wal-") { "ShWal".into() } else { "ShWalSnapshot".into() },
+        "tasks" => {
+            let tt = task_term(&task_name_of_key(key));
+            match (kind, scope) {
+                ("store", _) => format!("ShTaskPut {tt}"),
+                ("delete", "pending") => format!("ShTaskDel {tt}"),
+                ("delete", _) => format!("ShTaskFinish {tt}"),
+                ("move-value", "pending") => format!("ShTaskClaim {tt}"),
+                ("move-value", _) => format!("ShTaskResched {tt}"),
+                _ => "ShOther 1 0".into(),
+            }
+        }
+        _ => "ShOther 2 0".into(),
+    }
+}
+
+/// Steps of the operation: every listener write that is followed by the command store of the same CA starts
+/// a command step whose events come from the audit log; a command store without listener write is a rejected
+/// command; everything else is a single mutation.
+fn steps_terms(trace: &[Value], new_commands: &Value, wildcard_entity: bool) -> Vec<String> {
+    let mut steps = Vec::new();
+    let mut next: BTreeMap<String, usize> = BTreeMap::new();
+    let is = |t: &Value, store: &str| t["store"].as_str() == Some(store);
+    let mut i = 0;
+    while i < trace.len() {
+        let t = &trace[i];
+        if is(t, "ca_objects") && t["kind"] == "store" {
+            let h = t["key"].as_str().unwrap_or("").trim_end_matches(".json").to_string();
+            // the command store of h before the next listener write?
+            let mut j = i + 1; let mut found = None;
+            while j < trace.len() { if is(&trace[j], "ca_objects") { break } if is(&trace[j], "cas") && trace[j]["scope"].as_str() == Some(&h) && trace[j]["key"].as_str().unwrap_or("").starts_with("command-") { found = Some(j); break } j += 1; }
+            if let Some(j) = found {
+                let k = *next.get(&h).unwrap_or(&0); next.insert(h.clone(), k + 1);
+                let cmd = &new_commands[&h][k];
+                let evs: Vec<String> = cmd.as_array().map(|a| a.iter().map(|e| format!("(\"{}\"%string, {})", e[0].as_str().unwrap_or("?"), { let c = e[1].as_str().unwrap_or(""); if c.is_empty() { 0 } else { ent_id(c) } })).collect()).unwrap_or_default();
+                let children: Vec<String> = cmd.as_array().map(|a| a.iter().filter_map(|e| e[1].as_str().filter(|c| !c.is_empty()).map(|c| c.to_string())).collect()).unwrap_or_default();
+                steps.push(format!("CCmd {} {}", ent_id(&h), coq_list(&evs)));
+                // skip through the command store and the post-save task writes (parent syncs of the children named by the events)
+                i = j + 1;
+                while i < trace.len() && is(&trace[i], "tasks") {
+                    let name = task_name_of_key(trace[i]["key"].as_str().unwrap_or(""));
+                    if children.iter().any(|c| name == format!("sync_{c}_with_parent_{h}")) { i += 1 } else { break }
+                }
+                continue;
+            }
+        }
+        if is(t, "cas") && t["key"].as_str().unwrap_or("").starts_with("command-") {
+            let h = t["scope"].as_str().unwrap_or("").to_string();
+            let k = *next.get(&h).unwrap_or(&0); next.insert(h.clone(), k + 1);
+            if new_commands[&h][k] == "error" { steps.push(format!("CCmdErr {}", ent_id(&h))); i += 1; continue }
+        }
+        steps.push(format!("CPrim ({})", shape_term(t, wildcard_entity)));
+        i += 1;
+    }
+    steps
+}
+
+fn kind_term(state: &str, op: &str, twin: &CaseOut, pre: &Value) -> String {
+    // the files of the tree right after the operation, counted in the directory (not in the trace)
+    let n_files = twin.res["at_cut"]["rsync_files"].as_u64().unwrap_or(0);
+    let hc = pre["has_current"].as_bool().unwrap_or(false);
+    let nd = twin.res["at_cut"]["content_serial"].as_u64().unwrap_or(0).saturating_sub(pre["notification_serial"].as_u64().unwrap_or(0));
+    // the clean-up after the notification switch depends on which old files / serial directories exist: taken as observed
+    let cleanup: Vec<String> = twin.trace.iter().filter(|t| t["class"].as_str().map(|c| c.ends_with(":rrdp-dir")).unwrap_or(false)).map(|t| (t["kind"] == "fs-remove-dir").to_string()).collect();
+    let rrdp = format!("(KRrdpUpdate {nd}%nat {} {n_files}%nat {hc})", coq_list(&cleanup));
+    match (state, op) {
+        (_, "keyroll_init") => "KKeyrollInit".into(),
+        (_, "sync_parent") => "KSyncParent".into(),
+        (_, "republish") => "KRepublish".into(),
+        (_, "sync_repo") => "KSyncRepo".into(),
+        (_, "rrdp_update") => rrdp,
+        (_, "rsync_write") => format!("(KRsyncWrite {n_files}%nat {hc})"),
+        ("dirty", "task") => "(KTask KSyncRepo)".into(),
+        ("ahead", "task") => "(KTask KIdle)".into(),
+        ("staged", "task") => format!("(KTask {rrdp})"),
+        _ => "KCommand".into(),
+    }
+}
+
+/// What went wrong, as a small closed vocabulary (the `symptom` of the failing record's class).
+fn symptom(c: &CaseOut, twin: &CaseOut, converged: bool, tasks_kept: bool) -> (u64, &'static str) {
+    let mut errs: Vec<String> = c.res["settle_errs"].as_array().map(|a| a.iter().map(|x| x.as_str().unwrap_or("").to_string()).collect()).unwrap_or_default();
+    errs.push(c.res["resubmit"]["err"].as_str().unwrap_or("").to_string());
+    let has = |pat: &str| errs.iter().any(|e| e.contains(pat));
+    let keys = |r: &Value, ca: &str| r["obs"]["cas"][ca]["classes"][0]["keys"].as_str().unwrap_or("").to_string();
+    let p = params_target(c);
+    if has("Could not rename current rsync dir") { return (4, "rsync-old-dir-blocks-writes") }
+    if c.op == "keyroll_activate" && has("wrong key state") && keys(&c.res, p) == "roll_new" { return (2, "keyroll-activate-wedged") }
+    if c.op == "sync_parent" && has("No issued cert matching pub key") && keys(&c.res, p) == "roll_old" { return (3, "revoke-not-retryable") }
+    if !converged && c.op == "sync_parent" && c.state == "rollpending" && keys(&c.res, p) == "active" && keys(&twin.res, p) == "roll_new" { return (5, "keyroll-abandoned-class-dropped") }
+    if converged && !tasks_kept && c.mode == "fail" { return (6, "recurring-task-lost") }
+    if !converged || !tasks_kept { return (0, "diverged") }
+    (0, "none")
+}
+
+fn params_target(c: &CaseOut) -> &'static str { if c.target == "b" { "b" } else { "c" } }
+
 fn main() {
     let args = Args::parse("c08");
     if args.extra.contains_key("worker") { worker(&args); return }
     let exe = std::env::current_exe().unwrap();
     let out = std::fs::canonicalize(&args.out).unwrap();
     let seed = args.seed;
+    let strict = args.get_u64("strict", 0) == 1;
+    let strict_atomic = args.get_u64("strict-atomic", 0) == 1;
+    let target = params(seed).target;
     let t0 = std::time::Instant::now();
     let base = out.join("base");
     std::fs::create_dir_all(&base).unwrap();
     let (rc, err) = run_worker(&exe, seed, &base, &[("worker", "setup".into())]);
     assert!(rc == Some(0), "setup failed: {err}");
     eprintln!("setup {:?}", t0.elapsed());
-    let quick: Vec<(&str, &str)> = vec![("base", "roa_add"), ("base", "entitlement"), ("rollpending", "sync_parent"), ("rollnew", "keyroll_activate"), ("dirty", "task"), ("staged", "rrdp_update")];
+    let quick: Vec<(&str, &str)> = vec![("base", "roa_add"), ("base", "entitlement"), ("rollpending", "sync_parent"), ("rollnew", "keyroll_activate"), ("dirty", "task"), ("ahead", "task"), ("staged", "rrdp_update")];
     let all: Vec<(&str, &str)> = vec![("base", "roa_add"), ("base", "aspa_add"), ("base", "entitlement"), ("ent", "sync_parent"), ("base", "keyroll_init"), ("rollpending", "sync_parent"),
-        ("rollnew", "keyroll_activate"), ("rollold", "sync_parent"), ("dirty", "task"), ("dirty", "sync_repo"), ("dirty", "roa_add2"), ("staged", "rrdp_update"), ("staged", "rsync_write"), ("base", "republish"), ("staged", "task"), ("rollnew", "roa_add")];
+        ("rollnew", "keyroll_activate"), ("rollold", "sync_parent"), ("dirty", "task"), ("dirty", "sync_repo"), ("dirty", "roa_add2"), ("staged", "rrdp_update"), ("staged", "rsync_write"), ("base", "republish"), ("staged", "task"),
+        ("rollnew", "roa_add"), ("rollold", "roa_add"), ("rollpending", "roa_add"), ("rollnew", "entitlement"), ("ent", "roa_add"), ("ahead", "task")];
     let plan: Vec<(&str, &str)> = match args.extra.get("plan").map(|s| s.as_str()) {
         Some("all") => all.clone(),
-        Some(p) if p.contains('/') => p.split(',').map(|x| { let (a, b) = x.split_once('/').unwrap(); (all.iter().find(|(s, _)| *s == a).map(|(s, _)| *s).unwrap_or("base"), all.iter().find(|(_, o)| *o == b).map(|(_, o)| *o).expect("op")) }).collect(),
+        Some(p) if p.contains('/') => p.split(',').map(|x| { let (a, b) = x.split_once('/').unwrap(); *all.iter().find(|(s, o)| *s == a && *o == b).expect("unknown state/op") }).collect(),
         _ => if args.thorough() { all.clone() } else { quick.clone() },
     };
     let states: BTreeSet<&str> = plan.iter().map(|(s, _)| *s).collect();
@@ -766,50 +963,138 @@ fn main() {
     eprintln!("states {:?}", t0.elapsed());
     // twins first (they give the trace length), then every cut in both modes
     let jobs = args.get_u64("jobs", 12) as usize;
-    let twins: Vec<CaseOut> = {
-        let todo: Vec<(&str, &str, &str)> = plan.iter().flat_map(|(s, o)| vec![(*s, *o, "fail"), (*s, *o, "crash")]).collect();
-        let next = AtomicU64::new(0);
-        let res = Mutex::new(Vec::new());
-        std::thread::scope(|sc| { for _ in 0..jobs { sc.spawn(|| loop {
-            let i = next.fetch_add(1, Ordering::SeqCst) as usize; if i >= todo.len() { break }
-            let (s, o, m) = todo[i];
-            let c = run_case(&exe, seed, &out, s, o, m, None);
-            res.lock().unwrap().push((i, c));
-        }); } });
-        let mut v = res.into_inner().unwrap(); v.sort_by_key(|x| x.0); v.into_iter().map(|x| x.1).collect()
-    };
-    eprintln!("twins {:?}", t0.elapsed());
-    let mut todo: Vec<(String, String, String, usize)> = Vec::new();
-    for t in &twins { for n in 0..t.trace.len() { todo.push((t.state.clone(), t.op.clone(), t.mode.clone(), n)); } }
-    let cases: Vec<CaseOut> = {
+    let run_many = |todo: &Vec<(String, String, String, Option<usize>)>| -> Vec<CaseOut> {
         let next = AtomicU64::new(0);
         let res = Mutex::new(Vec::new());
         std::thread::scope(|sc| { for _ in 0..jobs { sc.spawn(|| loop {
             let i = next.fetch_add(1, Ordering::SeqCst) as usize; if i >= todo.len() { break }
             let (s, o, m, n) = &todo[i];
-            let c = run_case(&exe, seed, &out, s, o, m, Some(*n));
+            let mut c = run_case(&exe, seed, &out, s, o, m, *n);
+            c.target = target.to_string();
             res.lock().unwrap().push((i, c));
         }); } });
         let mut v = res.into_inner().unwrap(); v.sort_by_key(|x| x.0); v.into_iter().map(|x| x.1).collect()
     };
+    let twins = run_many(&plan.iter().flat_map(|(s, o)| vec![(s.to_string(), o.to_string(), "fail".to_string(), None), (s.to_string(), o.to_string(), "crash".to_string(), None)]).collect());
+    eprintln!("twins {:?}", t0.elapsed());
+    let mut todo: Vec<(String, String, String, Option<usize>)> = Vec::new();
+    for t in &twins { for n in 0..t.trace.len() { todo.push((t.state.clone(), t.op.clone(), t.mode.clone(), Some(n))); } }
+    let cases = run_many(&todo);
     eprintln!("cuts {:?} ({} cases)", t0.elapsed(), cases.len());
+
+    let header = "From Coq Require Import String.\nFrom KV Require Import base.Tac crash.Crash crash.CrashCheck.\nOpen Scope list_scope.\nOpen Scope N_scope.";
+    let evals = args.extra.get("evals").cloned().unwrap_or("agrees,c08_ok".into());
+    let footer: String = evals.split(',').map(|e| format!("Eval vm_compute in (failing {e} base_index cases).")).collect::<Vec<_>>().join("\n");
+    let mut w = CaseWriter::new(&args.out, header, "list case", &footer, 40);
+    let mut jsonl = std::fs::File::create(args.out.join("cases.jsonl")).unwrap();
+    let mut cut_hist: BTreeMap<String, u64> = BTreeMap::new();
+    let mut sym_hist: BTreeMap<String, u64> = BTreeMap::new();
+    let mut op_hist: BTreeMap<String, u64> = BTreeMap::new();
+    let mut delayed_hist: BTreeMap<String, u64> = BTreeMap::new();
+    let mut candidates: Vec<Value> = Vec::new();
+    let mut atomic_cases: Vec<Value> = Vec::new();
+    let mut traces: BTreeMap<String, Value> = BTreeMap::new();
+    let mut distinct: BTreeSet<String> = BTreeSet::new();
+    let mut samples: Vec<Value> = Vec::new();
+    let verbose = std::env::var("KV_VERBOSE").is_ok();
     for c in &cases {
         let twin = twins.iter().find(|t| t.state == c.state && t.op == c.op && t.mode == c.mode).unwrap();
+        let pre = read_json(&out.join(format!("state-{}", c.state)).join("pre.json"));
+        let wild = c.op == "republish";
         let tsh = shapes(&twin.trace, &c.op);
         let cls = cut_class(&tsh, c.n);
+        let fatal = !c.res["fatal"].is_null();
+        // comparison with the twin
         let mut diffs = Vec::new();
         diff_paths(&comparable(&c.res["obs"]), &comparable(&twin.res["obs"]), String::new(), &mut diffs);
-        let mut d_pump = Vec::new();
-        diff_paths(&c.res["obs_prompt"], &twin.res["obs_prompt"], String::new(), &mut d_pump);
+        let mut d_prompt = Vec::new();
+        diff_paths(&c.res["obs_prompt"], &twin.res["obs_prompt"], String::new(), &mut d_prompt);
+        let settle_errs = c.res["settle_errs"].as_array().map(|a| a.len()).unwrap_or(0);
+        let converged = !fatal && diffs.is_empty() && settle_errs == 0;
         let t_tasks: BTreeSet<String> = twin.res["obs"]["tasks"].as_array().map(|a| a.iter().map(|x| x.as_str().unwrap_or("").to_string()).collect()).unwrap_or_default();
         let c_tasks: BTreeSet<String> = c.res["obs"]["tasks"].as_array().map(|a| a.iter().map(|x| x.as_str().unwrap_or("").to_string()).collect()).unwrap_or_default();
-        let lost: Vec<&String> = t_tasks.difference(&c_tasks).collect();
-        println!("{}/{} {} n={} [{}] exit {} loads {} / {} first {} resubmit {} converged {} prompt {} lost_tasks {:?} settle_errs {} signed_bad {} files_bad {} pump_bad {} {} fatal {}",
-            c.state, c.op, c.mode, c.n, cls, c.exit, c.res["loads_bad"], c.res["loads_bad_final"], c.res["first_result"].to_string().chars().take(80).collect::<String>(),
-            c.res["resubmit"].to_string().chars().take(120).collect::<String>(), diffs.is_empty(), d_pump.is_empty(), lost, c.res["settle_errs"], c.res["obs"]["signed_bad"], c.res["obs"]["files_bad"], c.res["obs_pump"]["signed_bad"], c.res["obs_pump"]["files_bad"], c.res["fatal"]);
-        for d in diffs.iter().take(6) { println!("      diff {d}"); }
-        if std::env::var("KV_VERBOSE").is_ok() { println!("      pumped {}", c.res["pumped"]); for d in d_pump.iter().take(4) { println!("      prompt diff {d}"); } }
+        let lost: Vec<String> = t_tasks.difference(&c_tasks).cloned().collect();
+        let tasks_kept = lost.is_empty();
+        let (cand, sym) = symptom(c, twin, converged, tasks_kept);
+        // facts right after the cut
+        let mut new_cmds = Vec::new(); let mut shrank = false; let mut objs_changed = Vec::new();
+        for h in ["ta", "a", "b", "c"] {
+            let (v0, v1) = (pre["versions"][h].as_u64().unwrap_or(0), c.res["at_cut"]["versions"][h].as_u64().unwrap_or(0));
+            if v1 < v0 { shrank = true }
+            if v1 > v0 { new_cmds.push(format!("({}, {})", if wild { 99 } else { ent_id(h) }, v1 - v0)); }
+            if c.res["at_cut"]["objects"][h] != pre["objects"][h] { objs_changed.push(if wild { 99 } else { ent_id(h) }.to_string()); }
+        }
+        objs_changed.dedup();
+        let loads = !fatal && !shrank && c.res["loads_bad"].as_array().map(|a| a.is_empty()).unwrap_or(false) && c.res["loads_bad_final"].as_array().map(|a| a.is_empty()).unwrap_or(false);
+        let empty = |v: &Value| v.as_array().map(|a| a.is_empty()).unwrap_or(false);
+        let rp_ok = !fatal && empty(&c.res["obs"]["signed_bad"]) && empty(&c.res["obs"]["files_bad"]) && empty(&c.res["obs_pump"]["signed_bad"]) && empty(&c.res["obs_pump"]["files_bad"]);
+        let acked = c.mode == "fail" && c.res["first_result"] == "ok";
+        // atomicity right after the cut: a published-object store that moved without its command
+        let atomic_broken = ["a", "b", "c"].iter().any(|h| c.res["at_cut"]["objects"][*h] != pre["objects"][*h] && c.res["at_cut"]["versions"][*h] == pre["versions"][*h]
+            && twin.trace.iter().any(|t| t["store"] == "cas" && t["scope"].as_str() == Some(*h) && t["key"].as_str().unwrap_or("").starts_with("command-")));
+        // terms
+        let pend0: Vec<String> = pre["tasks"].as_array().map(|a| a.iter().filter_map(|x| x.as_str().and_then(|s| s.strip_prefix("pending:")).map(task_term)).collect()).unwrap_or_default();
+        let run0: Vec<String> = pre["tasks"].as_array().map(|a| a.iter().filter_map(|x| x.as_str().and_then(|s| s.strip_prefix("running:")).map(task_term)).collect()).unwrap_or_default();
+        let steps = steps_terms(&twin.trace, &twin.res["new_commands"], wild);
+        let trace_t: Vec<String> = twin.trace.iter().map(|t| shape_term(t, wild)).collect();
+        let prefix_t: Vec<String> = c.prefix.iter().take(c.n).map(|t| shape_term(t, wild)).collect();
+        let kind = kind_term(&c.state, &c.op, twin, &pre);
+        let term = format!("mkCase {kind} {} {}%nat {} {} {} {} {} {} {} {acked} {loads} {rp_ok} {converged} {tasks_kept} {cand} {strict} {strict_atomic}",
+            if c.mode == "crash" { "Crash" } else { "Fail" }, c.n, coq_list(&pend0), coq_list(&run0),
+            coq_list(&steps.iter().map(|s| format!("({s})")).collect::<Vec<_>>()),
+            coq_list(&trace_t.iter().map(|s| format!("({s})")).collect::<Vec<_>>()), coq_list(&prefix_t.iter().map(|s| format!("({s})")).collect::<Vec<_>>()),
+            coq_list(&new_cmds), coq_list(&objs_changed));
+        // class of the record (what a known finding is matched against)
+        let only_atomic = loads && rp_ok && converged && tasks_kept && atomic_broken;
+        // acknowledged (failed-write mode, the call returned Ok): every command store of the trace must be in the logs
+        let ack_lost = acked && ["a", "b", "c"].iter().any(|h| {
+            let want = twin.trace.iter().filter(|t| t["store"] == "cas" && t["scope"].as_str() == Some(*h) && t["key"].as_str().unwrap_or("").starts_with("command-")).count() as u64;
+            c.res["at_cut"]["versions"][*h].as_u64().unwrap_or(0) < pre["versions"][*h].as_u64().unwrap_or(0) + want });
+        let sym_name = if !loads { "does-not-load" } else if ack_lost { "acknowledged-command-lost" } else if !rp_ok { "published-set-invalid" }
+            else if sym != "none" { sym } else if only_atomic { "objects-ahead-of-log" } else { "none" };
+        // with strict = 0 a candidate divergence is excused, so the only clause such a record can fail is atomicity
+        let class_sym = if !strict && cand != 0 && atomic_broken { "objects-ahead-of-log" } else { sym_name };
+        let mut class = json!({"op": c.op, "state": c.state, "mode": c.mode, "cut_class": cls, "symptom": class_sym, "observed": sym_name});
+        if sym_name == "rsync-old-dir-blocks-writes" { class["rsync_old_dir"] = json!(true); }
+        let rec = json!({"index": w.total, "state": c.state, "op": c.op, "target": c.target, "mode": c.mode, "cut": c.n, "of": twin.trace.len(), "class": class,
+            "trace": twin.trace.iter().map(|t| format!("{} {}", t["store"].as_str().unwrap_or(""), t["class"].as_str().unwrap_or(""))).collect::<Vec<_>>(),
+            "interrupted_mutation": twin.trace.get(c.n).map(|t| format!("{} {}", t["store"].as_str().unwrap_or(""), t["class"].as_str().unwrap_or(""))),
+            "first_result": c.res["first_result"], "resubmit": c.res["resubmit"], "settle_errs": c.res["settle_errs"], "loads_bad": c.res["loads_bad"], "fatal": c.res["fatal"],
+            "new_commands_at_cut": new_cmds, "objects_changed_at_cut": objs_changed, "atomic_alike_broken": atomic_broken,
+            "roas_published_without_logged_command_after_restart_and_tasks": c.res["obs_pump"]["orphan_roas"], "orphan_roas_at_the_end": c.res["obs"]["orphan_roas"],
+            "converged": converged, "converged_promptly": d_prompt.is_empty(), "lost_tasks": lost, "diff_vs_twin": diffs.iter().take(6).collect::<Vec<_>>(), "exit": c.exit});
+        writeln!(jsonl, "{rec}").unwrap();
+        *cut_hist.entry(cls.clone()).or_default() += 1;
+        *sym_hist.entry(sym_name.to_string()).or_default() += 1;
+        *op_hist.entry(format!("{}/{}", c.state, c.op)).or_default() += 1;
+        if converged && !d_prompt.is_empty() { *delayed_hist.entry(format!("{}/{} {}", c.state, c.op, cls)).or_default() += 1; }
+        if cand != 0 || sym == "diverged" || !loads || ack_lost || !rp_ok { if candidates.len() < 60 { candidates.push(rec.clone()); } }
+        if atomic_broken && atomic_cases.len() < 12 { atomic_cases.push(json!({"index": w.total, "op": c.op, "state": c.state, "mode": c.mode, "cut": c.n, "objects_changed": objs_changed, "new_commands": new_cmds,
+            "roas_published_without_logged_command_after_restart_and_tasks": c.res["obs_pump"]["orphan_roas"], "orphan_roas_at_the_end": c.res["obs"]["orphan_roas"]})); }
+        traces.entry(format!("{}/{}", c.state, c.op)).or_insert_with(|| json!(twin.trace.iter().map(|t| format!("{} {}", t["store"].as_str().unwrap_or(""), t["class"].as_str().unwrap_or(""))).collect::<Vec<_>>()));
+        distinct.insert(format!("{}|{}|{}|{}", c.state, c.op, c.mode, c.n));
+        if samples.len() < 4 && (w.total % 29 == 5) { samples.push(rec.clone()); }
+        if verbose || sym == "diverged" || !loads || ack_lost || !rp_ok {
+            println!("{}/{} {} n={} [{}] {} loads {} rp {} converged {} prompt {} lost {:?} resubmit {}", c.state, c.op, c.mode, c.n, cls, sym_name, loads, rp_ok, converged, d_prompt.is_empty(), lost, c.res["resubmit"].to_string().chars().take(100).collect::<String>());
+            for d in diffs.iter().take(5) { println!("      diff {d}"); }
+            if fatal { println!("      fatal {}", c.res["fatal"]); }
+        }
+        w.push(term);
     }
-    eprintln!("done {:?}", t0.elapsed());
-    let _ = (coq_list(&[]), write_json, CaseWriter::new, CAS, parent_of("a"));
+    w.flush();
+    let excusable = ["keyroll-activate-wedged", "revoke-not-retryable", "keyroll-abandoned-class-dropped", "recurring-task-lost", "rsync-old-dir-blocks-writes"];
+    for (k, v) in &sym_hist {
+        if k == "none" { continue }
+        let counted = if k == "objects-ahead-of-log" { strict_atomic } else if excusable.contains(&k.as_str()) { strict } else { true };
+        println!("{} {k}: {v} case(s){}", if counted { "FAILING-CLASS" } else { "CANDIDATE-FINDING-CLASS" }, if counted { "" } else { " (reported in the evidence, not counted: strict flag is 0)" });
+    }
+    write_json(&args.out.join("stats.json"), &json!({
+        "scenario": "c08", "seed": seed, "tier": args.tier, "target_ca": target, "strict": strict, "strict_atomic": strict_atomic,
+        "evaluations": w.total, "distinct_nontrivial": distinct.len(),
+        "rule": "TA->a->{b,c} on disk storage, set up once, copied per case; seed picks the target CA (b|c), prefixes, ASNs; states: base, dirty (ROA added, tasks pending), staged (delta staged at the publication server), ent (entitlement shrunk, not synced), rollpending/rollnew/rollold (key roll stages); for each (state, operation kind) the crash-free twin gives the mutation trace; then EVERY cut index n of it is run in a worker subprocess in crash mode (process aborted right before mutation n, fresh runtime on the surviving directory, start-up tasks) and in failed-write mode (mutation n fails once, same runtime; a fatal scheduler error is followed by a restart): loads, pump, resubmit, pump, periodic work (parent syncs, re-publication, repository syncs, RRDP/rsync write), observation; non-trivial = every case (each is a distinct (state, op, mode, cut)); canonicalisation: key identifiers -> KEY, own class names -> RC, serials/times/manifest numbers/revocation counts not compared",
+        "operation_distribution": op_hist, "cut_class_distribution": cut_hist, "symptom_distribution": sym_hist, "delayed_until_periodic_work_distribution": delayed_hist,
+        "mutation_traces": traces, "atomic_alike_broken_cases": atomic_cases, "candidate_findings": candidates, "samples": samples,
+        "scenario_wall_s": t0.elapsed().as_secs_f64(),
+    }));
+    println!("c08: {} cases ({} operation kinds x every cut x 2 modes) in {:?}", w.total, plan.len(), t0.elapsed());
 }
